@@ -104,6 +104,9 @@ func (ft *FuncTr) rangeFuncCall(st *State, at *Term, in ssa.Instruction, c *ssa.
 		if !am.whole {
 			ft.assume(at, frameCond(am, before, after, preNext))
 		}
+		if !am.whole && len(am.locs) == 0 {
+			ft.h.noteFreshFrame(before, after, preNext)
+		}
 	}
 	for _, n := range sortedKeys(ms.ghost) {
 		nv := ft.d.Fresh(fmt.Sprintf("g_%s_rf%d", n, ord), ms.ghost[n])
